@@ -152,6 +152,10 @@ OPTSETS = {
     "default": dict(),
     "assets": dict(media_dir="media", css="css/user.css", favicon="fav.png", mathjax_config="mj.js"),
     "pages": dict(page_dir="pages"),
+    # the top page lists a sub-page that lies outside the page directory (see make_sandbox): whatever FORD does with it,
+    # refusing it included, nothing is written outside the output directory
+    "pages-outside": dict(page_dir="pages"),
+    "pages-outside-abs": dict(page_dir="pages"),
     "project-copy-subdir": dict(page_dir="pages", copy_subdir="pages/img"),
     "nosrc": dict(incl_src="false"),
     "externalize": dict(externalize="true"),
@@ -164,10 +168,15 @@ OPTSETS = {
 }
 
 
-def make_sandbox(placement):
+def make_sandbox(placement, optset=None):
     root = core.tmp_root() / f"c19-{os.getpid()}"
     shutil.rmtree(root, ignore_errors=True)
     fordrun.write_tree(root, SRC)
+    if optset == "pages-outside":
+        (root / "proj" / "pages" / "index.md").write_text("title: Guide\nordered_subpage: img/../../../sibling/guide/more.md\n                 ../notes_outside.md\n\nTop [leaf](leaf.html)\n")
+        (root / "proj" / "notes_outside.md").write_text("title: Notes\n\nnotes kept beside the page directory\n")
+    if optset == "pages-outside-abs":
+        (root / "proj" / "pages" / "index.md").write_text(f"title: Guide\nordered_subpage: {root}/sibling/guide/more.md\n\nTop [leaf](leaf.html)\n")
     os.symlink("../sibling", root / "proj" / "link_out")
     os.symlink("../../sibling/guide", root / "proj" / "pages" / "guide")
     # links inside the directories FORD copies: to a file (absolute), to a directory and to a file (relative)
@@ -279,7 +288,7 @@ def inside(path, roots, event=None):
 
 def run_case(st: Stats, placement, optset, fail_at):
     install_hook()
-    root = make_sandbox(placement)
+    root = make_sandbox(placement, optset)
     out_spec, graph_spec, _, refuse, *_more = PLACEMENTS[placement]
     proj = root / "proj"
     out_res = Path(os.path.realpath(os.path.join(proj, out_spec.format(root=root))))
@@ -319,7 +328,7 @@ def run_case(st: Stats, placement, optset, fail_at):
                 st.violation("mutating-event-outside-output", stratum, dict(feats, event=event, where=rel.split(os.sep)[0] + "/" + (rel.split(os.sep)[1] if os.sep in rel else "")),
                              inp, dict(event=event, path=rel), "only paths inside output_dir / graph_dir are created, changed or deleted")
                 break
-        if fail_at is None and err is not None:
+        if fail_at is None and err is not None and not optset.startswith("pages-outside"):
             bad += 1
             st.violation("run-failed-without-fault", stratum, feats, inp, repr(err)[:300] + log[-200:], "run completes")
     after = snapshot_outside(root, ([] if refuse else [out_res]) + [proj / "project.md"])
@@ -386,7 +395,7 @@ def main(tier, replay_path=None):
     core.use_repo()
     if tier == "quick":
         combos = [(p, o) for p in PLACEMENTS for o in ("default",)] + [(p, o) for p in PLACEMENTS if PLACEMENTS[p][3] for o in ("force", "force+pages")] + [(p, "everything") for p in ("sibling", "via-symlink", "dotdot", "stale-output")] + \
-                 [("sibling", o) for o in OPTSETS] + [(p, o) for p in PLACEMENTS if p.startswith("graphdir-") for o in ("graphs", "everything")]
+                 [("sibling", o) for o in OPTSETS] + [(p, o) for p in ("nested-new", "dotdot", "inside-src") for o in ("pages-outside", "pages-outside-abs")] + [(p, o) for p in PLACEMENTS if p.startswith("graphdir-") for o in ("graphs", "everything")]
         fault_combos = [("graphdir-is-src", "graphs"), ("sibling", "default"), ("via-symlink", "everything"), ("stale-output", "default"), ("inside-src", "assets"), ("dotdot", "pages"),
                         ("sibling", "project-copy-subdir")]
     else:
